@@ -131,7 +131,9 @@ class Monitor(object):
                 prev['state'] in ('OPENSENT', 'OPENCONFIRM', 'ESTABLISHED') and \
                 prev['proto'] < len(prev['conns']) and prev['conns'][prev['proto']] == 'connected':
             if obs['state'] != prev['state'] or any(o[0] in ('write', 'connect', 'lose') for o in outs):
-                for pr in ('C10', 'C12'):
+                # (after an operator stop / start cycle this is also what C13 promises: the session the operator started is
+                # not undone by leftovers of the one he stopped)
+                for pr in ('C10', 'C12') + (('C13',) if any(e.get('k') == 'stop' for e in self.trace) else ()):
                     self.fail(pr, 'the loss of old connection %d changed the session on the tracked connection %d: %s -> %s, outputs %r' % (
                         ev['c'], prev['proto'], prev['state'], obs['state'], [o[:2] for o in outs]), 'stale-connection-loss')
         # ---------------- C10: nothing escapes, nothing hangs
